@@ -13,7 +13,7 @@ import (
 
 func init() {
 	checks["C08"] = checkC08
-	explanations["C08"] = "Structural necessary conditions: (1) who-may-call with E1: AddVoucher only under msg=12 after both session reads of the DI step succeeded; SetRVBlob only under msg=22 after the session nonce read and comparison; ReplaceVoucher only under msg=70 after the Done nonce comparison and the session reads of replacement HMAC/GUID/rvinfo; owner-module HandleInfo/ProduceInfo only under msg=68, ProduceInfo only after the session MTU (stored by message 66) was read; (2) dispatch tables: each Respond switches over exactly its protocol's request constants, answers request+1, and protocol.Of classifies every constant of message_types.go; (3) handler token life cycle: NewToken only for the four start messages, every failure response in the request path is followed on all paths by token invalidation, the success response is written only if the response type is not final/error or the token was invalidated, a client error message (255) invalidates a presented token, and every invalidation uses a token-bearing context; (4) sqlite: sessionID reports ok only after hmac.Equal and InvalidateToken deletes the session row (cascades are C18's). Not decided: interleavings across sessions (only as far as all state is keyed by the token, C18), bounded histories as executions."
+	explanations["C08"] = "Structural necessary conditions: (1) who-may-call with E1: AddVoucher only under msg=12 after both session reads of the DI step succeeded; SetRVBlob only under msg=22 after the session nonce read and comparison; ReplaceVoucher only under msg=70 after the Done nonce comparison and the session reads of replacement HMAC/GUID/rvinfo; owner-module HandleInfo/ProduceInfo only under msg=68, ProduceInfo only after the session MTU (stored by message 66) was read; (2) dispatch tables: each Respond switches over exactly its protocol's request constants, answers request+1, and protocol.Of classifies every constant of message_types.go; (3) handler token life cycle: NewToken only for the four start messages, every failure response in the request path is followed on all paths by token invalidation, the success response is written only if the response type is not final/error or the token was invalidated, a client error message (255) invalidates a presented token, and every invalidation uses a token-bearing context; (4) sqlite: sessionID reports ok only after hmac.Equal and InvalidateToken deletes the session row (cascades are C18's). (5) every Set* method of the session-state interfaces is called only under its message arm (what a handler stores is the evidence that its message arrived). Not decided: interleavings across sessions (only as far as all state is keyed by the token, C18), bounded histories as executions."
 }
 
 func c08Rules(p *Prog) *RuleSet {
